@@ -317,7 +317,34 @@ func runC09(c *Ctx) {
 		for _, cs := range c.Calls(f.SSA, c.RoleCall("lru.new")) {
 			nCap++
 			_, ok := Match(Const("64"), cs.X.Args[0])
-			c.Check(ok, "C09.A7-capacity", c.short(topFunc(cs.Fn).String())+" › cache capacity", cs.In.Pos(), "duplicate cache created with capacity 64", "duplicate cache capacity is not the constant 64: "+cs.X.Args[0].String())
+			if !ok {
+				// a configurable capacity whose default is the constant 64: the option only replaces it with its argument
+				if a := strip(cs.X.Args[0]); a.Op == "field" && fieldOwner(a) == "config" {
+					hasDefault, onlyOptions := false, true
+					for _, g := range c.Funcs(pkg) {
+						instrsDeep(g.SSA, func(h *ssa.Function, in ssa.Instruction) {
+							st, isSt := in.(*ssa.Store)
+							if !isSt {
+								return
+							}
+							t := c.E(st.Addr)
+							if t.Op != "field" || t.Name != a.Name || fieldOwner(t) != "config" {
+								return
+							}
+							v := strip(c.E(st.Val))
+							switch {
+							case v.Op == "const" && v.Name == "64" && h.Parent() == nil:
+								hasDefault = true
+							case h.Parent() != nil && strip(t.Args[0]).Op == "param" && v.Op == "param":
+							default:
+								onlyOptions = false
+							}
+						})
+					}
+					ok = hasDefault && onlyOptions
+				}
+			}
+			c.Check(ok, "C09.A7-capacity", c.short(topFunc(cs.Fn).String())+" › cache capacity", cs.In.Pos(), "duplicate cache created with capacity 64 (or a configurable capacity that defaults to 64)", "duplicate cache capacity is not 64 by default: "+cs.X.Args[0].String())
 		}
 	}
 	c.Floor("C09.A7-capacity", 1)
